@@ -65,6 +65,8 @@ AXES = {
     # True: captions 1 and 2 share their times (one run); "aba": captions 1 and 3 do, caption 2 lies between (three runs)
     # "near": captions 1 and 2 differ by less than a millisecond at both ends (not identical: separate runs)
     "concurrent": [False, True, "aba", "near"],
+    # the first caption starts at time zero (its run, if any, too)
+    "from_zero": [False, True],
 }
 OPTS = [
     {},
@@ -131,10 +133,11 @@ def build(cfg):
         style = {}
         if cfg["cap_style_key"]:
             style = {cfg["cap_style_key"]: cfg["cap_style_val"]}
-        cl.append(Caption(1000000, 2000000, nodes, style=style, layout_info=mk_layout(cfg["cap_layout"])))
-        t2 = (1000000, 2000000) if cfg["concurrent"] is True else ((1000400, 2000300) if cfg["concurrent"] == "near" else (3000000, 4000000))
+        z = 1000000 if cfg.get("from_zero") else 0  # shift of the first span down to zero
+        cl.append(Caption(1000000 - z, 2000000 - z, nodes, style=style, layout_info=mk_layout(cfg["cap_layout"])))
+        t2 = (1000000 - z, 2000000 - z) if cfg["concurrent"] is True else ((1000400 - z, 2000300 - z) if cfg["concurrent"] == "near" else (3000000, 4000000))
         cl.append(Caption(t2[0], t2[1], [CaptionNode.create_text("second " + lang[:2])], layout_info=mk_layout(cfg["other_lang_layout"]) if li else (mk_layout(LAYOUTS[1]) if own else None)))
-        t3 = (1000000, 2000000) if cfg["concurrent"] == "aba" else (5000000, 6000000)
+        t3 = (1000000 - z, 2000000 - z) if cfg["concurrent"] == "aba" else (5000000, 6000000)
         cl.append(Caption(t3[0], t3[1], [CaptionNode.create_text("third")], layout_info=mk_layout(LAYOUTS[3]) if own and not li else None))
         caps[lang] = cl
     cs = CaptionSet(caps)
@@ -462,6 +465,7 @@ def _fix_cfg(cfg):
         if isinstance(cfg.get(k), list):
             cfg[k] = tuple(tuple(x) if isinstance(x, list) else x for x in cfg[k])
     cfg.setdefault("other_lang_layout", None)
+    cfg.setdefault("from_zero", False)
     return cfg
 
 
